@@ -28,7 +28,7 @@ UBSAN_CHECKS="integer-divide-by-zero,null,bounds,vptr,return,unreachable,alignme
 
 flags_for() {
   case "$1" in
-    plain) echo "g++ -O2 -g1" ;;
+    plain) echo "g++ -O2 -g1 -DNDEBUG" ;;   # NDEBUG as in the repository's default Release build
     asan)  echo "clang++ -O1 -g -fno-omit-frame-pointer -fsanitize=address -fsanitize=$UBSAN_CHECKS -fno-sanitize-recover=all" ;;
     tsan)  echo "clang++ -O1 -g -fno-omit-frame-pointer -fsanitize=thread" ;;
     *) echo "unknown flavour $1" >&2; exit 2 ;;
